@@ -34,7 +34,8 @@ Observe(name, seen, flag) ==
   /\ UNCHANGED <<doc, fmt, dir>>
 
 \* the export command writes the document to a file: whatever that file held before (an earlier, longer export), it
-\* then holds exactly what the command writes to a fresh path
+\* then holds the document and nothing of what was there before (same: the file parses and names nothing that only
+\* the earlier model declared)
 Written(ok, same) ==
   /\ bad' = bad \cup (IF ok /\ same THEN {} ELSE {"RewrittenFileDiffers"})
   /\ UNCHANGED <<doc, fmt, dir, stage>>
